@@ -1054,6 +1054,75 @@ def storage_fault_stage(chk, M, specs):
         shutil.rmtree(tmpdir, ignore_errors=True)
 
 
+LOCALE_CHILD = r"""
+import json, pathlib, sys
+from mopidy.internal import storage
+out = {}
+for p in sys.argv[1:]:
+    st = storage.load(pathlib.Path(p))
+    out[p] = None if st is None else json.loads(st.model_dump_json(by_alias=True))
+import locale
+print(json.dumps({"encoding": locale.getpreferredencoding(False), "states": out}))
+"""
+
+
+def storage_locale_stage(chk, M, specs):
+    """The state-file wire must not depend on the locale of the process that reads it: state files
+    with non-ASCII names written here are re-read by storage.load in a child process whose locale
+    encoding is not UTF-8 (LC_ALL=C with UTF-8 mode and locale coercion off, and a Latin-1 locale
+    when one is installed); what the child decodes must equal what was dumped."""
+    import subprocess
+
+    from mopidy.internal import models as IM
+    from mopidy.internal import storage
+
+    tls = [s for s in specs if s["cls"] == "TlTrack"]
+    non_ascii = [s for s in tls if not json.dumps(spec_json(s), ensure_ascii=False).isascii()][:4]
+    ascii_only = [s for s in tls if json.dumps(spec_json(s), ensure_ascii=False).isascii()][:1]
+    unicode_track = {**FULL_SPECS["TlTrack"], "track": {**_T, "name": "Ænima – 日本語 😀", "comment": "é"}}
+    groups = [("unicode", [unicode_track] + non_ascii), ("ascii", ascii_only or [FULL_SPECS["TlTrack"]])]
+    tmpdir = pathlib.Path(tempfile.mkdtemp(prefix="verif-c08-locale-"))
+    try:
+        expected = {}
+        for label, group in groups:
+            state = IM.StoredState(version="v", state=IM.CoreState(
+                tracklist=IM.TracklistState(tl_tracks=[build(M, s) for s in group], next_tlid=1)))
+            path = tmpdir / f"state-{label}.json.gz"
+            storage.dump(path, state)
+            expected[str(path)] = (label, json.loads(state.model_dump_json(by_alias=True)))
+        locales = [("C", {"LC_ALL": "C", "LANG": "C"})]
+        try:
+            avail = subprocess.run(["locale", "-a"], capture_output=True, text=True, timeout=20, check=False).stdout.split()
+        except (OSError, subprocess.TimeoutExpired):
+            avail = []
+        latin = next((x for x in avail if "8859" in x or x.lower().endswith((".latin1", ".iso88591"))), None)
+        if latin:
+            locales.append((latin, {"LC_ALL": latin, "LANG": latin}))
+        for lname, lenv in locales:
+            env = {**vlib.impl_env(), **lenv, "PYTHONUTF8": "0", "PYTHONCOERCECLOCALE": "0", "PYTHONIOENCODING": "utf-8"}
+            env.pop("LC_CTYPE", None)
+            p = subprocess.run([vlib.PY, "-B", "-X", "utf8=0", "-c", LOCALE_CHILD, *expected], env=env, capture_output=True, text=True,
+                               timeout=120, check=False)
+            case = {"locale": lname, "stderr": p.stderr[-300:]}
+            chk.count(len(expected), nontrivial_key="storage_locale:" + lname)
+            try:
+                got = json.loads(p.stdout.strip().splitlines()[-1])
+            except (ValueError, IndexError):
+                chk.monitor_failure("roundtrip", {"wire": "state_file", "what": "child_failed", "locale": lname},
+                                    "the child process reading the state file failed", case)
+                continue
+            chk.dist(f"storage_locale:{lname}:{got['encoding']}")
+            for path, (label, want) in expected.items():
+                if got["states"].get(path) != want:
+                    chk.monitor_failure("roundtrip", {"wire": "state_file", "what": "locale_dependent", "content": label},
+                                        f"a state file with {label} names read under locale {lname} (encoding {got['encoding']}) decodes to "
+                                        f"{'nothing' if got['states'].get(path) is None else 'a different state'}",
+                                        {**case, "content": label, "encoding": got["encoding"],
+                                         "first_track_name": want["state"]["tracklist"]["tl_tracks"][0]["track"]["name"]})
+    finally:
+        shutil.rmtree(tmpdir, ignore_errors=True)
+
+
 def digit_table_stage(chk, M):
     """The Unicode decimal-digit table of Models.v (nd_starts) against pydantic's date pattern:
     exhaustive over all code points in the thorough tier (a finite domain), sampled otherwise."""
@@ -1315,7 +1384,8 @@ def run(chk):
                         ("constraint", lambda: constraint_stage(chk, M)), ("rpc", lambda: rpc_stage(chk, M, jsonrpc, specs)),
                         ("malformed", lambda: malformed_stage(chk, M, jsonrpc)), ("values", lambda: values_stage(chk, M, specs)),
                         ("event", lambda: event_stage(chk, M, specs)), ("storage", lambda: storage_stage(chk, M, specs)),
-                        ("storage_fault", lambda: storage_fault_stage(chk, M, specs))):
+                        ("storage_fault", lambda: storage_fault_stage(chk, M, specs)),
+                        ("storage_locale", lambda: storage_locale_stage(chk, M, specs))):
         t0 = time.time()
         try:
             stage()
